@@ -338,6 +338,8 @@ pub enum Addrs {
     All7,
     /// all 256 x 256
     All8,
+    /// the single pair (0x23, 0x34), without the used-context dimension (huge arguments)
+    All7Stride,
     List(Vec<(u8, u8)>),
 }
 
@@ -346,11 +348,13 @@ impl Addrs {
         match self {
             Addrs::All7 => 128 * 128,
             Addrs::All8 => 65536,
+            Addrs::All7Stride => 1,
             Addrs::List(v) => v.len() as u64,
         }
     }
     fn get(&self, i: u64) -> (u8, u8) {
         match self {
+            Addrs::All7Stride => (0x23, 0x34),
             Addrs::All7 => ((i / 128) as u8, (i % 128) as u8),
             Addrs::All8 => ((i / 256) as u8, i as u8),
             Addrs::List(v) => v[i as usize],
@@ -448,6 +452,26 @@ pub fn one(acc: &mut Acc, prop: &'static str, ctx: &MCTPSMBusContext, probe: &MC
 }
 
 pub fn replay_enc(prop: &str, case: &Value) -> Result<ReplayOut, String> {
+    if case["check"].as_str() == Some("longrun") {
+        let cfg: Cfg = get_de(case, "cfg")?;
+        let rc: EncCall = get_de(case, "run_call")?;
+        let call: EncCall = get_de(case, "call")?;
+        let rep = get_u64(case, "repeat")? as usize;
+        let mut history: Vec<Event> = vec![];
+        if case["pre"].as_bool().unwrap_or(false) {
+            history.push(Event::SetEidReq(0xA8));
+            history.push(Event::SetEidResp(0xA8));
+        }
+        for _ in 0..rep {
+            history.push(Event::Encode { call: rc.clone(), dst: 0x34 });
+        }
+        if case["post"].as_bool().unwrap_or(false) {
+            history.push(Event::SetEidReq(0x17));
+            history.push(Event::SetEidResp(0x17));
+        }
+        let j = judge_encseq(prop, &cfg, &history, &call, get_u64(case, "dst")? as u8, false, true);
+        return Ok(ReplayOut { violations: j.viols.into_iter().map(|(k, d)| format!("{}: {}", k, d)).collect(), observed: j.observed });
+    }
     if case["check"].as_str() == Some("damaged") {
         let cfg: Cfg = get_de(case, "cfg")?;
         let call: EncCall = get_de(case, "call")?;
@@ -534,7 +558,7 @@ pub fn encseq_alphabet() -> Vec<Event> {
     v.push(Event::SetEidReq(0x56));
     v.push(Event::Process(set_eid_req(0x10, SEQ_OWN, 0, 0x56)));
     // the peer at 0x34 confirms the EID we submitted with ReqSetEid{eid: 0x56}
-    v.push(Event::Process(forge_response(0x34, SEQ_OWN, 0, 0x01, 0, &[0x00, 0x56, 0x00])));
+    v.push(Event::Process(forge_response(0x34, SEQ_OWN, 5, 0x01, 0, &[0x00, 0x56, 0x00])));
     // receive-side traffic between encoder calls: a probe, a decode-only call, answered requests
     // (one with a long response), a corrupted packet, a UUID store
     let geid = forge_request(0x10, SEQ_OWN, 0, false, 0x02, &[]);
@@ -549,7 +573,7 @@ pub fn encseq_alphabet() -> Vec<Event> {
     v.push(Event::SetUuid(U1));
     // a peer's Get Endpoint ID response (in the 4-data-byte form the library's decoder accepts)
     // reporting an EID that differs from the peer's address
-    v.push(Event::Process(forge_response(0x34, SEQ_OWN, 0, 0x02, 0, &[0x47, 0x00, 0x00, 0x00])));
+    v.push(Event::Process(forge_response(0x34, SEQ_OWN, 5, 0x02, 0, &[0x47, 0x00, 0x00, 0x00])));
     // an assignment whose SMBus source address (0x77) does not name the same device as its source EID (0x34)
     let mut odd = set_eid_req(0x34, SEQ_OWN, 1, 0x58);
     odd[3] = (0x77 << 1) | 1;
@@ -700,6 +724,56 @@ pub fn sweep_enc_thrash(run: &mut Run, prop: &'static str) {
         }
         for (kind, d) in j.viols {
             acc.violation(history.len() as u64, kind, format!("after {} earlier call(s)/store(s): {}", history.len(), d), || json!({"prop": prop, "check": "encseq", "cfg": cfg, "history": history, "call": call, "dst": 0x34, "reuse": false}));
+        }
+    });
+}
+
+/// Run-lengths around 2^16 calls and 2^24 generated bytes: one encoder call (a
+/// 12-byte request or a maximal 259-byte vendor message) repeated 64 774..=64 779
+/// or 65 535..=65 537 times on one context, optionally after storing an EID and
+/// optionally followed by storing a lower one, then each of four calls judged.
+pub fn sweep_enc_long_runs(run: &mut Run, prop: &'static str) {
+    let cfg = encseq_cfg();
+    let reps: [usize; 9] = [64_774, 64_775, 64_776, 64_777, 64_778, 64_779, 65_535, 65_536, 65_537];
+    let runs: Vec<EncCall> = vec![EncCall::ReqGetEid, EncCall::Vendor { fmt: 0, data: 0x1AF4, num: 1, msg: vec![0x51; 247] }, EncCall::RespVersion { cc: 0 }];
+    let lasts: Vec<EncCall> = vec![
+        EncCall::ReqGetEid,
+        EncCall::Vendor { fmt: 0, data: 0x1AF4, num: 1, msg: vec![0x51; 247] },
+        EncCall::RespGetEid { cc: 0, ty: 0, idty: 0, fair: false },
+        EncCall::Raw { half: Half::Req, writer: Writer::Spdm, hdr: None, data: vec![0x57; 4] },
+    ];
+    let n = (runs.len() * reps.len() * 2 * 2 * lasts.len()) as u64;
+    run.sweep("long runs: 3 encoder calls x repeat counts 64 774..=64 779 and 65 535..=65 537 x {EID stored before} x {lower EID stored after} x 4 judged calls", n, |acc, i| {
+        let mut ix = Ix(i);
+        let call = &lasts[ix.take(lasts.len() as u64) as usize];
+        let post = ix.take(2) == 1;
+        let pre = ix.take(2) == 1;
+        let rep = reps[ix.take(reps.len() as u64) as usize];
+        let rc = &runs[ix.take(runs.len() as u64) as usize];
+        let mut history: Vec<Event> = vec![];
+        if pre {
+            history.push(Event::SetEidReq(0xA8));
+            history.push(Event::SetEidResp(0xA8));
+        }
+        for _ in 0..rep {
+            history.push(Event::Encode { call: rc.clone(), dst: 0x34 });
+        }
+        if post {
+            history.push(Event::SetEidReq(0x17));
+            history.push(Event::SetEidResp(0x17));
+        }
+        acc.evals += 1;
+        let j = judge_encseq(prop, &cfg, &history, call, 0x34, false, false);
+        acc.trans += history.len() as u64 + 1;
+        acc.validated += 1;
+        acc.state(Fnv::default().u64(0x10E6).u64(i).finish());
+        if j.produced {
+            acc.nontrivial(Fnv::default().u64(0x10E7).u64(i).finish());
+        }
+        for (kind, d) in j.viols {
+            acc.violation(3, kind, format!("after {} x {} on one context{}{}: {}", rep, rc.name(), if pre { ", an EID stored before" } else { "" }, if post { ", a lower EID stored after" } else { "" }, d), || {
+                json!({"prop": prop, "check": "longrun", "cfg": cfg, "run_call": rc, "repeat": rep, "pre": pre, "post": post, "call": call, "dst": 0x34})
+            });
         }
     });
 }
@@ -883,10 +957,41 @@ pub fn run_c03(run: &mut Run) {
     let (n, f) = sized_space(255);
     sweep_enc(run, "C03", "writers x every data length x walking contents", n, &f, &Addrs::List(vec![(0x23, 0x34), (0x7F, 0x01)]), 2);
     c03_responses(run);
+    // self-referential content: a message byte equal to the running CRC-8 of everything before it
+    // (the remainder becomes zero there), followed by zeros or by 0xFF
+    {
+        let pairs = [(0x23u8, 0x34u8), (0x00, 0x00), (0x7F, 0x7F), (0x55, 0x2A), (0x01, 0x7E)];
+        run.sweep("vendor/SPDM messages of 64 bytes whose byte p equals the running CRC-8 of the packet so far (p = 0..=63) x 2 tails x 4 kinds x 5 address pairs", 64 * 2 * 4 * 5, |acc, i| {
+            let mut ix = Ix(i);
+            let p = ix.take(64) as usize;
+            let tail = [0x00u8, 0xFF][ix.take(2) as usize];
+            let kind = ix.take(4);
+            let (src, dst) = pairs[ix.take(5) as usize];
+            let mk = |msg: Vec<u8>| match kind {
+                0 => EncCall::Vendor { fmt: 0, data: 0x1AF4, num: 1, msg },
+                1 => EncCall::Vendor { fmt: 1, data: 0x0000_1AF4, num: 1, msg },
+                2 => EncCall::Raw { half: Half::Req, writer: Writer::Spdm, hdr: None, data: msg },
+                _ => EncCall::Raw { half: Half::Resp, writer: Writer::Secured, hdr: Some(vec![0x11, 0x22]), data: msg },
+            };
+            // position of message byte p inside the packet: find it from the reference packet of a marker message
+            let mut msg = vec![tail; 64];
+            msg[p] = 0x00;
+            let EncExp::Bytes(probe_pkt) = expect(&mk(msg.clone()), src, dst, 0) else { return };
+            let off = probe_pkt.len() - 1 - 64 + p;
+            msg[p] = crc8(&probe_pkt[..off]);
+            let call = mk(msg);
+            let spec = enc_specs(src).swap_remove(0);
+            let owned = Owned::new(&spec.cfg);
+            let ctx = owned.ctx();
+            let probe = owned.ctx();
+            one(acc, "C03", &ctx, &probe, &spec, src, 0, &call, dst, i);
+        });
+    }
     sweep_encseq(run, "C03");
     enc_pairs(run, "C03");
     sweep_encdeep(run, "C03");
     sweep_enc_thrash(run, "C03");
+    sweep_enc_long_runs(run, "C03");
     sweep_damaged_prefill(run, "C03");
 }
 
@@ -976,10 +1081,12 @@ pub fn run_c04(run: &mut Run) {
     // every size, but only backgrounds + a thinned walking byte (content does not matter to framing)
     let (n, f) = sized_space(300);
     sweep_enc(run, "C04", "writers x every data length 0..=300 x contents", n, &f, &Addrs::List(vec![(0x55, 0x2A)]), 1);
+    sweep_enc(run, "C04", "writers x data lengths 65 236..=65 836 (around 2^16: length arithmetic narrower than usize)", SIZED_KINDS * 601, &|i| sized_call(i / 601, 65_236 + (i % 601) as usize, 2), &Addrs::All7Stride, 1);
     sweep_encseq(run, "C04");
     enc_pairs(run, "C04");
     sweep_encdeep(run, "C04");
     sweep_enc_thrash(run, "C04");
+    sweep_enc_long_runs(run, "C04");
 }
 
 pub fn run_c05(run: &mut Run) {
@@ -999,6 +1106,7 @@ pub fn run_c05(run: &mut Run) {
     enc_pairs(run, "C05");
     sweep_encdeep(run, "C05");
     sweep_enc_thrash(run, "C05");
+    sweep_enc_long_runs(run, "C05");
 }
 
 pub fn run_c06(run: &mut Run) {
@@ -1019,6 +1127,7 @@ pub fn run_c06(run: &mut Run) {
     enc_pairs(run, "C06");
     sweep_encdeep(run, "C06");
     sweep_enc_thrash(run, "C06");
+    sweep_enc_long_runs(run, "C06");
 }
 
 /// C07 adds the stored-EID dimension through context histories.
@@ -1082,6 +1191,7 @@ pub fn run_c07(run: &mut Run) {
     enc_pairs(run, "C07");
     sweep_encdeep(run, "C07");
     sweep_enc_thrash(run, "C07");
+    sweep_enc_long_runs(run, "C07");
 }
 
 pub fn run_c08(run: &mut Run) {
@@ -1121,6 +1231,7 @@ pub fn run_c08(run: &mut Run) {
     sweep_encseq(run, "C08");
     sweep_encdeep(run, "C08");
     sweep_enc_thrash(run, "C08");
+    sweep_enc_long_runs(run, "C08");
 }
 
 pub fn run_c16(run: &mut Run) {
@@ -1133,12 +1244,14 @@ pub fn run_c16(run: &mut Run) {
     sweep_enc(run, "C16", "30 kinds x 2 tuples x 5 pairs x 4 ctxs", basic.len() as u64, &|i| basic[i as usize].clone(), &five_pairs(), 4);
     let (n, f) = sized_space(300);
     sweep_enc(run, "C16", "writers x every data length 0..=300 x contents", n, &f, &Addrs::List(vec![(0x55, 0x2A)]), 1);
+    sweep_enc(run, "C16", "writers x data lengths 65 236..=65 836 (around 2^16)", SIZED_KINDS * 601, &|i| sized_call(i / 601, 65_236 + (i % 601) as usize, 2), &Addrs::All7Stride, 1);
     // refusal axis: reserved EIDs x 4 operations x all 128x128 addresses
     sweep_enc(run, "C16", "set_endpoint_id EID in {0x00,0xFF,0x01,0xFE} x 4 ops x 128x128", 16, &|i| EncCall::ReqSetEid { op: (i / 4) as u8, eid: [0x00, 0xFF, 0x01, 0xFE][(i % 4) as usize] }, &Addrs::All7, 1);
     sweep_encseq(run, "C16");
     enc_pairs(run, "C16");
     sweep_encdeep(run, "C16");
     sweep_enc_thrash(run, "C16");
+    sweep_enc_long_runs(run, "C16");
     sweep_damaged_prefill(run, "C16");
 }
 
